@@ -39,6 +39,9 @@ Definition part_eqb (a b : Z * content) : bool := Z.eqb (fst a) (fst b) && ident
 Definition body_eqb (a b : body) : bool :=
   list_eqb part_eqb (fst a) (fst b) && (match fst a with [] => Bool.eqb (snd a) (snd b) | _ => true end).
 Definition no_body : body := ([], false).
+(** a body the driver did not observe (rows of an HTTP paged query are compared by their triples only): the
+    impossible combination "some partials AND hasDeleted" *)
+Definition unobserved (b : body) : bool := snd b && negb (match fst b with [] => true | _ => false end).
 
 (** does the model (variant v) predict observation [o] of probe [pr] asked in state [rs], now ([at_] = None)
     or pinned to instant t ([at_] = Some t)? *)
@@ -61,6 +64,7 @@ Definition agree_probe (v : pvariant) (dss : list Z) (rs : rstore) (pr : probe) 
       pages_match inverse mps (map (map fst) ops)
       (* ... and every body is the related entity as of the instant the variant reads bodies at *)
       && forallb (fun row : rrow =>
+                    unobserved (snd row) ||
                     body_eqb (lookup_at (rs_st rs) (snd (fst row)) (if pv_body_now v then clk else ab)
                                         (resolve_scope q dss req))
                              (snd row))
@@ -100,7 +104,7 @@ Definition rows_eqv (a b : list rrow) : bool :=
   (* the same triples, as multisets ... *)
   forallb (fun x => Nat.eqb (count3 x (map fst a)) (count3 x (map fst b))) (map fst a ++ map fst b)
   (* ... carrying the same bodies *)
-  && forallb (fun ra => forallb (fun rb => negb (trip3_eqb (fst ra) (fst rb)) || body_eqb (snd ra) (snd rb)) b) a.
+  && forallb (fun ra => forallb (fun rb => negb (trip3_eqb (fst ra) (fst rb)) || unobserved (snd ra) || unobserved (snd rb) || body_eqb (snd ra) (snd rb)) b) a.
 Fixpoint pages_eqv (a b : list (list rrow)) : bool :=
   match a, b with
   | [], [] => true
@@ -136,19 +140,22 @@ Definition evaluate (cs : list pcase) : list (list N) :=
   ++ [ indices_where (fun c => negb (spec_ok c)) cs ].
 
 (** a spec failure that the pinned model does not predict *)
-Fixpoint unexplained_run (dss : list Z) (rs : rstore) (tb : ptable) (ops : list pop) : bool :=
+Fixpoint unexplained_run (vc : pvariant) (dss : list Z) (rs : rstore) (tb : ptable) (ops : list pop) : bool :=
   match ops with
   | [] => false
-  | PWrite w :: ops' => unexplained_run dss (rapply (v_eq v_current) (v_dup v_current) rs w) tb ops'
-  | PAsk pid pr o :: ops' => unexplained_run dss rs ((pid, (pr, s_clock (rs_st rs), o)) :: tb) ops'
+  | PWrite w :: ops' => unexplained_run vc dss (rapply (v_eq (pv_c03 vc)) (v_dup (pv_c03 vc)) rs w) tb ops'
+  | PAsk pid pr o :: ops' => unexplained_run vc dss rs ((pid, (pr, s_clock (rs_st rs), o)) :: tb) ops'
   | PPin pid o :: ops' =>
     match plookup pid tb with
-    | Some (pr, t, o0) => negb (obs_eqv o0 o) && negb (agree_probe pv_current dss rs pr (Some t) o)
+    | Some (pr, t, o0) => negb (obs_eqv o0 o) && negb (agree_probe vc dss rs pr (Some t) o)
     | None => true
-    end || unexplained_run dss rs tb ops'
+    end || unexplained_run vc dss rs tb ops'
   end.
+(** the pinned reads with any of the four write-path variants *)
+Definition pinned_pvariants : list pvariant :=
+  map (fun v => {| pv_c03 := v; pv_body_now := true |}) pinned_variants.
 Definition unexplained_all (cs : list pcase) : list (list N) :=
-  [indices_where (fun c => unexplained_run (pc_ds c) rstore0 [] (pc_ops c)) cs].
+  [indices_where (fun c => forallb (fun vc => unexplained_run vc (pc_ds c) rstore0 [] (pc_ops c)) pinned_pvariants) cs].
 
 Fixpoint first_bad (v : pvariant) (dss : list Z) (rs : rstore) (tb : ptable) (ops : list pop) (i : N) : option N :=
   match ops with
